@@ -56,7 +56,29 @@ func scenario(w *sim.World) {
 		w.Probe("env_refusals_enabled")
 	}
 	p := envsys.NewPBKVS(wd, nr, nc, explore, input)
-	desc := fmt.Sprintf("replicas=%d clients=%d exploreFail=%v ops=%d", nr, nc, explore, nOps)
+	hunt := explore && nr >= 3 && w.Choose(sim.KCfg, 2) == 1
+	if hunt {
+		// crashes concentrate on the primary while it is half-way through replicating a request
+		// (some backups have it, others not) and are rare otherwise: take-overs with a partly
+		// replicated request, and the take-over synchronisation, are what is being hunted
+		p.CrashP0 = func(i int) float64 {
+			a := p.Replicas[i-1]
+			lowest := 0
+			for k := nr; k >= 1; k-- {
+				if p.Alive(k) {
+					lowest = k
+				}
+			}
+			if i == lowest && (strings.HasSuffix(a.PC, ".sndReplicaReqLoop") || strings.HasSuffix(a.PC, ".rcvReplicaRespLoop")) {
+				if idx, ok := a.Local("AReplica.idx"); ok && idx.IsNumber() && idx.AsNumber() >= 2 {
+					return 0.3
+				}
+			}
+			return 0.95
+		}
+		w.Probe("mid_replication_hunt")
+	}
+	desc := fmt.Sprintf("replicas=%d clients=%d exploreFail=%v ops=%d hunt=%v", nr, nc, explore, nOps, hunt)
 	lastDesc = desc
 	w.Event("cfg %s", desc)
 	pending := map[int]*op{}
